@@ -16,7 +16,9 @@ def item(req):
 
 
 def doc_key(req):
-    """the documented key format; used ONLY to classify a cross-talk as the '+' collision"""
+    """the joined-string key Loader.get_pipeline used before /repo commit 0c7650b; used ONLY to
+    label a cross-talk between two requests that collide under it as the '+' collision
+    (fingerprint pipeline-key-collision-plus) should it ever come back"""
     parent, name = req
     return f'{parent}+{name}' if parent else name
 
